@@ -87,3 +87,46 @@ extern "C" void h_refs()
         __CPROVER_assert(g_sel_addfileid == in_add && g_sel_instances == im, "C14 a SELECT value is read with the caller's id offset in the caller's instance manager");
     }
 }
+
+/* C15 / C03: an inherited attribute that a subtype redeclares is read through the redeclaring attribute (delegation at the top of
+ * STEPattribute::STEPread).  The instance reader then looks at the error descriptor of the attribute IT called - the inherited one - so
+ * the delegation must hand the mode on and leave what the read reported in that descriptor */
+extern "C" void h_redeclared()
+{
+    IN(int, in_strict); IN(int, in_shape);
+    static STEPattribute a, b; static AttrDescriptor ad; static SDAI_LOGICAL lo; static SDAI_Integer iv;
+    g_base = INTEGER_TYPE; g_opt_obj = &lo; lo.v = LFalse;      /* SELF\literal_number.the_value : INTEGER, required */
+    a._redefAttr = &b; a._derive = false; a.aDesc = &ad; a.ptr.i = 0;
+    b._redefAttr = 0; b._derive = false; b.aDesc = &ad; b.ptr.i = &iv; iv = 7;
+    __CPROVER_assume(in_shape == 0 || in_shape == 1);
+    g_stream_arbitrary = 0; g_stream_script[0] = '$'; g_stream_script[1] = in_shape ? ')' : ','; g_stream_len = 2;
+    istream in; in._m_state = 0; in._m_have = 0; in._m_consumed = 0;
+    Severity s = a.STEPread(in, 0, 0, 0, in_strict != 0);
+    if (in_strict) {
+        __CPROVER_assert(s == SEVERITY_INCOMPLETE, "C15 strict mode: `$` for a required redeclared attribute makes the instance incomplete (the mode reaches the redeclaring attribute)");
+        __CPROVER_assert(a.Error().severity() == SEVERITY_INCOMPLETE, "C15/C03 what the redeclaring attribute's read reported is in the descriptor of the attribute the instance reader called");
+    } else {
+        __CPROVER_assert(s == SEVERITY_USERMSG && iv == 0, "C15 lenient mode: `$` for a required redeclared INTEGER is accepted with a user message and 0 is substituted");
+        __CPROVER_assert(a.Error().severity() == SEVERITY_USERMSG, "C15 the user message of the substitution is in the descriptor of the attribute the instance reader called");
+    }
+}
+
+/* C03: `$abc,` - characters between a `$` and the delimiter - is not a clean unset value: what the delimiter check reports (a warning)
+ * stays, whether the attribute is OPTIONAL or required, strict or lenient, of any kind */
+extern "C" void h_dollar_garbage()
+{
+    IN(int, in_base); IN(int, in_optional); IN(int, in_strict);
+    static STEPattribute a; static AttrDescriptor ad; static SDAI_LOGICAL lo; static SDAI_Integer iv; static SDAI_Real rv; static SDAI_String sv;
+    static const PrimitiveType kinds[] = { INTEGER_TYPE, REAL_TYPE, NUMBER_TYPE, STRING_TYPE, BINARY_TYPE, BOOLEAN_TYPE, LOGICAL_TYPE, ENUM_TYPE,
+                                           AGGREGATE_TYPE, ARRAY_TYPE, BAG_TYPE, SET_TYPE, LIST_TYPE, ENTITY_TYPE, SELECT_TYPE };
+    __CPROVER_assume(0 <= in_base && in_base < 15);
+    g_base = kinds[in_base]; g_opt_obj = &lo; lo.v = in_optional ? LTrue : LFalse;
+    a._redefAttr = 0; a._derive = false; a.aDesc = &ad; iv = 7; rv = 7.0; sv = "'x'";
+    if (g_base == INTEGER_TYPE) a.ptr.i = &iv; else if (g_base == REAL_TYPE || g_base == NUMBER_TYPE) a.ptr.r = &rv; else if (g_base == STRING_TYPE) a.ptr.S = &sv; else a.ptr.i = 0;
+    g_stream_arbitrary = 0; g_stream_script[0] = '$'; g_stream_script[1] = 'x'; g_stream_script[2] = ','; g_stream_len = 3;
+    istream in; in._m_state = 0; in._m_have = 0; in._m_consumed = 0;
+    g_cri_garbage = 1;      /* contract of CheckRemainingInput: garbage before the delimiter raises a warning in the descriptor */
+    Severity s = a.STEPread(in, 0, 0, 0, in_strict != 0);
+    g_cri_garbage = 0;
+    __CPROVER_assert(s < SEVERITY_USERMSG && a.Error().severity() < SEVERITY_USERMSG, "C03 characters between a `$` and the delimiter are reported (worse than a user message), OPTIONAL or not, strict or not");
+}
